@@ -13,7 +13,11 @@ SCEN = [
     ("call_clear_warm", [(1, {}, [["call", 3], ["call", 4]])], [(1, {}, [["call", 3]]), (1, {}, [["clear"]])], dict(ops="CL", vers="11", keys="AA", warm=("a", "b"))),
     ("call_reduce_warm", [(1, {}, [["call", 3], ["call", 4]])], [(1, {}, [["call", 3]]), (1, {}, [["reduce", {"items_limit": 0}]])], dict(ops="CR", vers="11", keys="AA", warm=("a", "b"))),
     ("shelve_reduce_warm", [(1, {}, [["call", 3]])], [(1, {}, [["shelveref", 3]]), (1, {}, [["reduce", {"items_limit": 0}]])], None),
-    ("expires_call_reduce", [(1, {"expires": 1000}, [["call", 3]])], [(1, {"expires": 1000}, [["call", 3]]), (1, {}, [["reduce", {"items_limit": 0}]])], None),
+    # (an argument whose repr carries braces: the messages about an entry that could not be loaded quote the call)
+    ("expires_call_reduce", [(1, {"expires": 1000}, [["call", 3, {"k": "{}", "{0}": [1]}]])], [(1, {"expires": 1000}, [["call", 3, {"k": "{}", "{0}": [1]}]]), (1, {}, [["reduce", {"items_limit": 0}]])], None),
+    # coroutine functions (AsyncMemorizedFunc): an eviction / a concurrent store between the look-up and the load
+    ("acall_reduce_warm", [(1, {}, [["acall", 3]])], [(1, {}, [["acall", 3]]), (1, {}, [["reduce", {"items_limit": 0}]])], None),
+    ("acall_acall_cold", [], [(1, {}, [["acall", 3]]), (1, {}, [["acall", 3]])], None),
     ("call_call_clear", [(1, {}, [["call", 3]])], [(1, {}, [["call", 3]]), (1, {}, [["call", 4]]), (1, {}, [["clear"]])], dict(ops="CCL", vers="111", keys="ABA", warm=("a",))),
     ("call_call_clear_cold", [], [(1, {}, [["call", 3]]), (1, {}, [["call", 4]]), (1, {}, [["clear"]])], None),
     ("call_call_clearall_cold", [], [(1, {}, [["call", 3]]), (1, {}, [["call", 4]]), (1, {}, [["clear_all"]])], None),
@@ -25,7 +29,7 @@ SCEN = [
     ("threads_call_call_clearall", [], [(1, {}, [["threads", [[["call", 3], ["call", 5], ["call", 3]], [["clear_all"]]]]])], None),
     ("clearall_call", [(1, {}, [["call", 3]])], [(1, {}, [["call", 3], ["call", 4]]), (1, {}, [["clear_all"]])], None),
 ]
-QUICK = {"call_call_same_cold", "call_clear_cold", "call_clear_warm", "call_reduce_warm", "shelve_reduce_warm", "call_call_clear", "threads_call_call_clear", "expires_call_reduce", "reduce_clear_orphan", "clearall_call", "call_call_clearall_cold", "threads_call_call_clearall"}
+QUICK = {"call_call_same_cold", "call_clear_cold", "call_clear_warm", "call_reduce_warm", "shelve_reduce_warm", "call_call_clear", "threads_call_call_clear", "expires_call_reduce", "reduce_clear_orphan", "clearall_call", "call_call_clearall_cold", "threads_call_call_clearall", "acall_reduce_warm", "acall_acall_cold"}
 
 
 CODE_TEXTS = {}
@@ -74,8 +78,8 @@ def run_schedule(args):
             op = l["op"]
             if "exc" in l:
                 problems.append({"participant": k, "kind": "exception", "op": op, "exc": l["exc"], "msg": l.get("msg")})
-            elif op[0] in ("call", "shelve", "shelveref"):
-                exp = ["v%d" % ver, op[1], 0]
+            elif op[0] in ("call", "acall", "shelve", "shelveref"):
+                exp = ["v%d" % ver, op[1], op[2] if len(op) > 2 else 0]
                 if l["value"] != exp and not (op[0] == "shelveref" and l["value"] == "evicted"):
                     problems.append({"participant": k, "kind": "wrong_value", "op": op, "got": l["value"]})
     snap = None
@@ -145,6 +149,7 @@ def body(c):
             stepB = 1 if not c.quick else max(1, nB // 3)
             # at most 2 pre-emptions: A runs a calls, B runs b calls, A to completion, B to completion (and symmetric)
             for first, second, n1, n2, s1, s2 in ((A, B, nA, nB, stepA, stepB), (B, A, nB, nA, stepB, stepA)):
+                if c.quick and name.startswith("acall"): break      # (same code path as the plain call: the one-window enumeration below is enough per change)
                 for a in range(0, n1 + 1, s1):
                     for b in range(1, n2 + 1, s2):
                         jobs.append((base, sc, sid, [first] * a + [second] * b + [first] * (n1 + 10) + [second] * (n2 + 10), 0)); sid += 1
